@@ -145,13 +145,27 @@ theorem C15_early_close_restores_server (c : Conn) (a : Args) (k : Nat)
       rw [hr, hk]; simp [close, hc']
 
 /-- **Pull forced on a server without pull.**  Flag True and the server answers CIM_ERR_NOT_SUPPORTED:
-    the first `next()` raises exactly that CIMError; the server is untouched and the flag stays True. -/
+    the first `next()` raises exactly that CIMError; the server is untouched and the flag stays True.
+    (Refined with the model: if a pull-only argument has a wrong type — `typeBad` — the client part of Open…
+    raises TypeError before anything is sent; everything else as stated.) -/
 theorem C15_forced_pull_unsupported (c : Conn) (a : Args) (hv : validate a = none)
     (hf : c.flags a.fam = some true) (hd : c.srv.disabled = true) :
-    (next c (.notStarted a)).2.2 = .raise (.cimError CIM_ERR_NOT_SUPPORTED) ∧
+    (next c (.notStarted a)).2.2 =
+      .raise (if typeBad a then .typeError else .cimError CIM_ERR_NOT_SUPPORTED) ∧
     (next c (.notStarted a)).2.1 = .finished ∧
     (next c (.notStarted a)).1.srv = c.srv ∧ (next c (.notStarted a)).1.flags = c.flags := by
-  simp [next, start, hv, hf, usePull, doOpen, srvOpen, hd, handleErr, learns, finallyClose]
+  cases htb : typeBad a <;>
+    simp [next, start, hv, hf, usePull, doOpen, srvOpen, htb, hd, handleErr, learns, finallyClose]
+
+/-- **Wrongly typed pull-only argument.**  Pull path (flag None or True), ContinueOnError that is not a bool,
+    FilterQuery / FilterQueryLanguage that is not a string, or a class name where the Associator/Reference methods
+    need an instance path (`typeBad`): the first `next()` raises TypeError out of the client part of Open…; nothing is sent, nothing is learned (the flag keeps its value, also None on a server without
+    pull).  With the flag at False the same call raises the ValueError of `C15_fallback_rejects` instead. -/
+theorem C15_wrong_type_raises_typeerror (c : Conn) (a : Args) (hv : validate a = none)
+    (hu : usePull (c.flags a.fam) = true) (htb : typeBad a = true) :
+    (next c (.notStarted a)).2.2 = .raise .typeError ∧ (next c (.notStarted a)).2.1 = .finished ∧
+    (next c (.notStarted a)).1.srv = c.srv ∧ (next c (.notStarted a)).1.flags = c.flags := by
+  simp [next, start, hv, hu, doOpen, srvOpen, htb, handleErr, learns, finallyClose]
 
 /-! ### traditional fallback -/
 
@@ -201,11 +215,11 @@ theorem C15_fallback_rejects (c : Conn) (a : Args) (hv : validate a = none) (hu 
     (hr : fallbackReject a = true) :
     (next c (.notStarted a)).2.2 = .raise .valueError ∧ (next c (.notStarted a)).2.1 = .finished ∧
     (next c (.notStarted a)).1.srv = c.srv := by
-  rcases hu with hf | ⟨hf, hd⟩
+  rcases hu with hf | ⟨hf, hd, htb⟩
   · simp [next, start_flag_false hv hf, fallbackStart_reject hf hr]
   · have hf' : (afterLearn c a CIM_ERR_NOT_SUPPORTED).flags a.fam = some false := by simp [afterLearn, setFlag]
     have e : next c (.notStarted a) = (afterLearn c a CIM_ERR_NOT_SUPPORTED, .finished, .raise .valueError) := by
-      simp only [next]; rw [start_learn hv hf hd, fallbackStart_reject hf' hr]
+      simp only [next]; rw [start_learn hv hf hd htb, fallbackStart_reject hf' hr]
     rw [e]; exact ⟨rfl, rfl, rfl⟩
 
 /-- what the fallback rejects, spelled out per family -/
@@ -282,7 +296,7 @@ theorem C15_interleaved_generators_equal_traditional (s : State) (u : Option Boo
   have hinv : Inv s :=
     ⟨fun c1 h1 => (by rw [hs] at h1; cases h1), fun c1 h1 => (by rw [hs] at h1; cases h1),
      fun c1 h1 => (by rw [hs] at h1; cases h1)⟩
-  have hi := iinv_run evs (iinv_fresh s u hs hd hinv) hev
+  have hi := iinv_run evs (iinv_fresh s u hs hinv) (fun ev h => (hev ev h).allowed.callOk)
   have hp := (hi.ok j).prefix
   refine ⟨hp.1, hp.2, fun hj => hi.expok j ?_⟩
   rw [runG_world]; exact hj
@@ -310,6 +324,28 @@ theorem C15_no_context_leak_any_server (s : State) (u : Option Bool) (evs : List
     · rw [h.beyond j (by omega)] at hj
       obtain ⟨_, _, hj⟩ := hj; cases hj
   · exact Or.inr hr
+
+/-- **Interleaved generators each equal their traditional result — whatever the server does.**
+    As `C15_interleaved_generators_equal_traditional`, without its hypotheses on the server: the server may switch
+    pull off and on and remove namespaces at any moment of the history (`CallOk` only restricts IterQueryInstances
+    to a failing ExecQuery).  At every point: what generator `j` has yielded is a prefix of `exp j` (= `trad j` or
+    `comp j`), and equals it once `j` ended with StopIteration.  A Pull the server refuses ends the generator with
+    that error — nothing wrong, duplicated or reordered has been delivered before, and nothing is delivered after.
+    (For a call whose namespace is removed before its first `next()` the observer's notes `trad`/`comp`/`exp`
+    become empty: its traditional operation now fails.) -/
+theorem C15_interleaved_generators_any_server (s : State) (u : Option Bool) (evs : List Ev)
+    (hs : s.ctxs = []) (hev : ∀ ev ∈ evs, CallOk ev) (j : Nat) :
+    let gh := (runG (fresh s u) {} evs).2
+    gh.got j <+: gh.exp j ∧ (gh.stopped j = true → gh.got j = gh.exp j) ∧
+    (j < (runW (fresh s u) evs).1.n → gh.exp j = gh.trad j ∨ gh.exp j = gh.comp j) := by
+  intro gh
+  have hinv : Inv s :=
+    ⟨fun c1 h1 => (by rw [hs] at h1; cases h1), fun c1 h1 => (by rw [hs] at h1; cases h1),
+     fun c1 h1 => (by rw [hs] at h1; cases h1)⟩
+  have hi := iinv_run evs (iinv_fresh s u hs hinv) hev
+  have hp := (hi.ok j).prefix
+  refine ⟨hp.1, hp.2, fun hj => hi.expok j ?_⟩
+  rw [runG_world]; exact hj
 
 /-- the server refusing CloseEnumeration is the one way a context can outlive its generator: with pull
     switched off between `next()` and `close()`, `close()` raises CIM_ERR_NOT_SUPPORTED and the context
@@ -437,7 +473,7 @@ theorem C15_paths_name_namespace (c : Conn) (a : Args) (k : Nat) (hinv : Inv c.s
   · intro hu hc o ho
     rcases classify c a with ⟨_, hp, hd, _⟩ | ⟨hv, _, hr, ht⟩ | hfail
     · exfalso
-      rcases hu with hf | ⟨_, hd'⟩
+      rcases hu with hf | ⟨_, hd', _⟩
       · rw [hf] at hp; simp [usePull] at hp
       · rw [hd] at hd'; cases hd'
     · rw [(fallback_spec c a k hv hu hr ht).1] at ho
@@ -495,7 +531,7 @@ example : let r := takeN (demoConn none false) (.notStarted demoArgs) 3
 -- fallback: completed paths (6 = id 1, namespace set, host missing -> 7)
 example : (takeN (demoConn none true) (.notStarted demoArgs) 9).2.2.1 = [7, 11, 15, 19, 23] ∧
     (takeN (demoConn none true) (.notStarted demoArgs) 9).2.2.2 = some .stop := by decide
-example : UsesFallback (demoConn none true) demoArgs := Or.inr ⟨rfl, rfl⟩
+example : UsesFallback (demoConn none true) demoArgs := Or.inr ⟨rfl, rfl, rfl⟩
 example : (next (demoConn (some true) true) (.notStarted demoArgs)).2.2 = .raise (.cimError 7) := by decide
 example : (next (demoConn (some false) false) (.notStarted { demoArgs with coe := true })).2.2 =
     .raise .valueError := by decide
@@ -557,5 +593,33 @@ example : (runW (fresh { nss := [0, 1] } none)
       [.call { demoArgs with ns := 1 }, .removeNs 1, .next 0]).2 = [.ok, .ok, .raise (.cimError 3)] ∧
     (runW (fresh { nss := [0, 1] } (some false))
       [.call { demoArgs with ns := 1 }, .removeNs 1, .next 0]).2 = [.ok, .ok, .raise (.cimError 3)] := by decide
+
+-- wrongly typed ContinueOnError: TypeError on the pull path (also on a server without pull: nothing learned),
+-- ValueError once the flag is False
+example : typeBad { demoArgs with coe := true, coeType := true } = true := by decide
+example : (next (demoConn none true) (.notStarted { demoArgs with coe := true, coeType := true })).2.2 =
+      .raise .typeError ∧
+    (next (demoConn none true) (.notStarted { demoArgs with coe := true, coeType := true })).1.flags .enumInst = none ∧
+    (next (demoConn (some false) true) (.notStarted { demoArgs with coe := true, coeType := true })).2.2 =
+      .raise .valueError := by decide
+
+-- C15_interleaved_generators_any_server: pull switched off under generator 0 (it ends with CIMError 7 after
+-- [6, 10]: a prefix), generator 1 started later falls back and delivers everything
+def toggledHistory : List Ev :=
+  [.call demoArgs, .next 0, .next 0, .setDisabled true, .next 0, .call { demoArgs with fam := .enumPath }, .next 1,
+   .next 1, .next 1, .next 1, .next 1, .next 1]
+example : ∀ ev ∈ toggledHistory, CallOk ev := by decide
+example : let gh := (runG (fresh { nss := [0] } none) {} toggledHistory).2
+    gh.got 0 = [6, 10] ∧ gh.stopped 0 = false ∧ gh.exp 0 = [6, 10, 14, 18, 22] ∧
+    gh.got 1 = [7, 11, 15, 19, 23] ∧ gh.stopped 1 = true := by decide
+
+-- class-level request to an Associator/Reference method: TypeError on the pull path, the class-level traditional
+-- result through the fallback (C15_wrong_type_raises_typeerror / C15_fallback_equals_traditional)
+example : typeBad { demoArgs with fam := .assocInst, srcIsClass := true } = true ∧
+    typeBad { demoArgs with fam := .enumInst, srcIsClass := true } = false := by decide
+example : (next (demoConn none false) (.notStarted { demoArgs with fam := .assocInst, srcIsClass := true })).2.2 =
+      .raise .typeError ∧
+    outcome (demoConn (some false) false) { demoArgs with fam := .assocInst, srcIsClass := true } 2 =
+      ([6, 10], none) := by decide
 
 end C15
